@@ -116,12 +116,12 @@ def pairing(chk, prog):
                 probs.append("%d normal outcomes" % len(outs))
             for o in outs:
                 evs = [e for e in o.ev if e[0] in ("inc", "dec")]
-                want = [(evn, I(3))] if alive else []
+                want = [(evn, hv[3][pos["index"]])] if alive else []
                 if [(e[0], e[1]) for e in evs] != want:
                     probs.append("slot-count events %s, specification says %s" % (evs, want))
                 if evn == "inc":
                     v = o.value
-                    if v[0] != "adt" or v[3][pos["ptr"]] != hv[3][pos["ptr"]] or v[3][pos["index"]] != I(3):
+                    if v[0] != "adt" or v[3][pos["ptr"]] != hv[3][pos["ptr"]] or v[3][pos["index"]] != hv[3][pos["index"]]:
                         probs.append("the clone does not carry the same pointer and slot index")
             chk.inst("handle-pairing", "%s(set alive=%s)" % (fn.split(" as ")[1], alive), not probs,
                      detail="; ".join(probs[:2]), sample={"fn": fn, "set_alive": alive, "events": [str(e) for o in outs for e in o.ev if e[0] in ("inc", "dec")]})
